@@ -1,5 +1,5 @@
 (* Props/C15.v — property theorems only. *)
-From GE Require Import Lib.Bytes Model.Blech32 Proofs.Blech32.
+From GE Require Import Lib.Bytes Model.Blech32 Proofs.Blech32 Proofs.Blech32Hrp.
 Import B32.
 Open Scope N_scope.
 
@@ -68,6 +68,49 @@ Theorem C15_detects_two : forall hrp syms cs data i1 x1 y1 i2 x2 y2 cs',
   decode (hrp ++ sep :: cs') = DErr.
 Proof. exact detects_two. Qed.
 Print Assumptions C15_detects_two.
+
+(* ---- substitutions inside the human-readable part (the three network prefixes of Gen/NetConsts.v:
+   lq, tlq, el), for every length the decoder admits; alphabet = the 32 characters of the charset ---- *)
+Theorem C15_detects_hrp_one : forall h syms cs data p c0 c,
+  In h std_hrps -> to_chars syms = Some cs -> decode (h ++ sep :: cs) = DOk h data ->
+  nth_error h p = Some c0 -> In c charset -> c <> c0 ->
+  decode (upd h p c ++ sep :: cs) = DErr.
+Proof. exact detects_hrp_one. Qed.
+Print Assumptions C15_detects_hrp_one.
+
+Theorem C15_detects_hrp_two : forall h syms cs data p1 c01 c1 p2 c02 c2,
+  In h std_hrps -> to_chars syms = Some cs -> decode (h ++ sep :: cs) = DOk h data ->
+  p1 <> p2 ->
+  nth_error h p1 = Some c01 -> In c1 charset -> c1 <> c01 ->
+  nth_error h p2 = Some c02 -> In c2 charset -> c2 <> c02 ->
+  decode (upd (upd h p1 c1) p2 c2 ++ sep :: cs) = DErr.
+Proof. exact detects_hrp_two. Qed.
+Print Assumptions C15_detects_hrp_two.
+
+Theorem C15_detects_hrp_and_data : forall h syms cs data p c0 c i x y cs',
+  In h std_hrps -> to_chars syms = Some cs -> decode (h ++ sep :: cs) = DOk h data ->
+  nth_error h p = Some c0 -> In c charset -> c <> c0 ->
+  nth_error syms i = Some y -> x <> y -> to_chars (upd syms i x) = Some cs' ->
+  decode (upd h p c ++ sep :: cs') = DErr.
+Proof. exact detects_hrp_and_data. Qed.
+Print Assumptions C15_detects_hrp_and_data.
+
+(* the separator replaced by a character of the alphabet (with any other changes that leave no "1") *)
+Theorem C15_no_separator_rejected : forall s, Forall (fun c => beqb c sep = false) s -> decode s = DErr.
+Proof. exact no_separator_rejected. Qed.
+Print Assumptions C15_no_separator_rejected.
+
+(* the structural fact behind the HRP theorems: one polymod step with input 0 is injective on 60-bit words *)
+Theorem C15_shift_injective : forall j a b, a < 2 ^ 60 -> b < 2 ^ 60 -> shift j a = shift j b -> a = b.
+Proof. exact shift_inj. Qed.
+Print Assumptions C15_shift_injective.
+
+(* DecodeGeneric does not look at the checksum: it returns whatever prefix is spelled *)
+Theorem C15_decode_generic_ignores_checksum : forall hrp syms cs, to_chars syms = Some cs -> map to_lower hrp = hrp ->
+  pre hrp (length syms) = true ->
+  decode_generic (hrp ++ sep :: cs) = GOk hrp (firstn (length syms - 12) syms) (skipn (length syms - 12) syms).
+Proof. exact decode_generic_ignores_checksum. Qed.
+Print Assumptions C15_decode_generic_ignores_checksum.
 
 (* the constant is selected by the witness version *)
 Theorem C15_constant_selected_by_version : forall s hrp data, decode s = DOk hrp data ->
